@@ -64,8 +64,8 @@ func mapToYAML(m map[string]any) string {
 }
 
 type c09doc struct {
-	id   string
-	scn  *Scn
+	id  string
+	scn *Scn
 }
 
 // c09singles derives single-attribute documents from a full document.
